@@ -105,6 +105,19 @@ func ruleGoRec(p *Prog, r *RuleResult) {
 			if d := entryGuard(target); d != nil {
 				r.ok(fmt.Sprintf("%s -> %s recovers at entry", key, p.FnName(target)), p.IPos(g))
 				checkWorkerSends(p, r, key, g, target)
+				// a separately deferred WaitGroup.Done must be registered before the recovering handler (defers run
+				// last-in first-out): otherwise the parent passes Wait while the handler is still publishing the failure
+				eachInstr(target, func(i ssa.Instruction) {
+					df, ok := i.(*ssa.Defer)
+					if !ok || !isMethodNamed(&df.Call, "sync", "WaitGroup", "Done") {
+						return
+					}
+					if instrDominates(df, d) {
+						r.ok(key+": Done is registered before the recovering handler (runs after it)", p.IPos(df))
+					} else {
+						r.fail(key+"#done-before-handler", p.IPos(df), "WaitGroup.Done is deferred after the recovering handler, so it runs first: the parent passes Wait and reads the worker's result slot while the handler is still writing it (data race; a failure can be read as success)")
+					}
+				})
 				return
 			}
 			r.fail(key, p.IPos(g), fmt.Sprintf("goroutine %s installs no recover() handler at its entry: a panic raised while it processes (possibly forged) data terminates the whole process", p.FnName(target)))
